@@ -366,6 +366,7 @@ pub struct Runner {
     pub checks: u64,
     pub utf8_full: String,
     pub notes: Vec<String>,
+    pub groupings: std::collections::BTreeSet<String>,
 }
 
 fn lo_ok(lo: &(u8, Vec<u8>), k: &[u8]) -> bool {
@@ -406,6 +407,7 @@ impl Runner {
             checks: 0,
             utf8_full: String::new(),
             notes: vec![],
+            groupings: Default::default(),
         }
     }
 
@@ -556,6 +558,19 @@ impl Runner {
         self.check(res_s == want_s, || {
             format!("C06 call results differ from the ordering contract: fe={} got {} want {}", fe, res_s, want_s)
         });
+        // C06/C15: rejected calls leave no trace — the bytes equal those of a builder that
+        // only ever saw the accepted calls
+        if !stop && want_res.iter().any(|x| x != "ok") && !ambiguous {
+            let accepted_calls: Vec<Call> = calls
+                .iter()
+                .zip(want_res.iter())
+                .filter(|(_, r)| *r == "ok")
+                .map(|(c, _)| c.clone())
+                .collect();
+            let clean = run_frontend(fe, ty, geom, &accepted_calls);
+            let same = clean.bytes == out.bytes;
+            self.check(same, || format!("C06 C15 rejected calls left a trace in the emitted bytes: fe={} calls={}", fe, show_calls(&calls)));
+        }
         self.expect = None;
         self.cur = None;
         if stop && stopped {
@@ -973,6 +988,9 @@ pub fn run_stdin(oracle_path: Option<&str>) {
         writeln!(f, "checks {}", r.checks).unwrap();
         for x in &r.notes {
             writeln!(f, "NOTE {}", x).unwrap();
+        }
+        if !r.groupings.is_empty() {
+            writeln!(f, "NOTE merge: {} distinct union groupings observed in the traces of the real runs", r.groupings.len()).unwrap();
         }
         for x in &r.fails {
             writeln!(f, "FAIL {}", x).unwrap();
